@@ -2,6 +2,7 @@
 import copy
 import itertools
 
+from .. import envprobe
 from ..common import chunks, generic_replay, pool_map
 
 RULE = ('track lists: exhaustively all lists of <= 3 tracks of <= 3 events over deltas {0,1} and event kinds {message, '
@@ -213,11 +214,14 @@ def run(ck):
     for c in (cases[50], cases[len(cases) // 2], cases[-1]):
         ck.sample({'tracks': c[0], 'mode': c[1]})
     ck.compare('merge', reqs, [r[0] for r in res], ck.driver.run(reqs))
+    envprobe.check(ck, ['merge'])
     return ck.finish(RULE, assumptions=['CPython list.sort is stable (modelled by core List.mergeSort)',
                                         '"inputs left unmodified" is checked by deep comparison only: a pure model cannot exhibit aliasing'])
 
 
 def oracle(case):
+    if 'environment' in case:
+        return envprobe.oracle(case)
     trs = [[tuple(e) for e in tr] for tr in case['tracks']]
     return impl_case((trs, case['mode']))[1]
 
